@@ -25,7 +25,7 @@ _STORES = {}
 
 
 class Op:
-    __slots__ = ("proc", "seq", "kind", "path", "path2", "data", "rel", "base")
+    __slots__ = ("proc", "seq", "kind", "path", "path2", "data", "rel", "base", "failed")
 
     def __init__(self, proc, seq, kind, path, path2=None, data=None, rel=None, base=None):
         self.proc = proc
@@ -36,6 +36,7 @@ class Op:
         self.data = data
         self.rel = rel
         self.base = base
+        self.failed = None      # exception class name if the real transport refused the op
 
     @property
     def mutating(self):
@@ -89,7 +90,11 @@ class Store:
             self.log.append(op)
         h = self.hook
         if h is not None:
-            h(op)
+            try:
+                h(op)
+            except BaseException as e:
+                op.failed = "hook:" + type(e).__name__
+                raise
         return op
 
     # -- state
@@ -195,6 +200,13 @@ class VfsTransport(TransportDecorator):
         return self._store.on_op(kind, self._abs(relpath), None if rel2 is None else self._abs(rel2),
                                  data, rel=relpath, base=self._decorated.base)
 
+    def _do(self, op, fn, *args):
+        try:
+            return fn(*args)
+        except BaseException as e:
+            op.failed = type(e).__name__
+            raise
+
     # reads
     def has(self, relpath):
         self._op("has", relpath)
@@ -231,20 +243,20 @@ class VfsTransport(TransportDecorator):
     # writes
     def put_file(self, relpath, f, mode=None):
         data = f.read()
-        self._op("put", relpath, data=data)
-        return self._decorated.put_bytes(relpath, data, mode)
+        op = self._op("put", relpath, data=data)
+        return self._do(op, self._decorated.put_bytes, relpath, data, mode)
 
     def put_bytes(self, relpath, raw_bytes, mode=None):
         if not isinstance(raw_bytes, bytes):
             raise TypeError("raw_bytes must be a plain string, not %s" % type(raw_bytes))
-        self._op("put", relpath, data=raw_bytes)
-        return self._decorated.put_bytes(relpath, raw_bytes, mode)
+        op = self._op("put", relpath, data=raw_bytes)
+        return self._do(op, self._decorated.put_bytes, relpath, raw_bytes, mode)
 
     def put_file_non_atomic(self, relpath, f, mode=None, create_parent_dir=False, dir_mode=None):
         data = f.read()
-        self._op("put_na", relpath, data=data)
+        op = self._op("put_na", relpath, data=data)
         try:
-            return self._decorated.put_bytes(relpath, data, mode)
+            return self._do(op, self._decorated.put_bytes, relpath, data, mode)
         except terrors.NoSuchFile:
             if not create_parent_dir:
                 raise
@@ -252,8 +264,8 @@ class VfsTransport(TransportDecorator):
             parent_dir = os.path.dirname(relpath)
             if parent_dir:
                 self.mkdir(parent_dir, mode=dir_mode)
-                self._op("put_na", relpath, data=data)
-                return self._decorated.put_bytes(relpath, data, mode)
+                op = self._op("put_na", relpath, data=data)
+                return self._do(op, self._decorated.put_bytes, relpath, data, mode)
             raise
 
     def put_bytes_non_atomic(self, relpath, raw_bytes, mode=None, create_parent_dir=False, dir_mode=None):
@@ -263,14 +275,14 @@ class VfsTransport(TransportDecorator):
 
     def append_file(self, relpath, f, mode=None):
         data = f.read()
-        self._op("append", relpath, data=data)
-        return self._decorated.append_bytes(relpath, data, mode)
+        op = self._op("append", relpath, data=data)
+        return self._do(op, self._decorated.append_bytes, relpath, data, mode)
 
     def append_bytes(self, relpath, data, mode=None):
         if not isinstance(data, bytes):
             raise TypeError("bytes must be a plain string, not %s" % type(data))
-        self._op("append", relpath, data=data)
-        return self._decorated.append_bytes(relpath, data, mode)
+        op = self._op("append", relpath, data=data)
+        return self._do(op, self._decorated.append_bytes, relpath, data, mode)
 
     def open_write_stream(self, relpath, mode=None):
         self.put_bytes(relpath, b"", mode)
@@ -279,32 +291,32 @@ class VfsTransport(TransportDecorator):
         return r
 
     def mkdir(self, relpath, mode=None):
-        self._op("mkdir", relpath)
-        return self._decorated.mkdir(relpath, mode)
+        op = self._op("mkdir", relpath)
+        return self._do(op, self._decorated.mkdir, relpath, mode)
 
     def rename(self, rel_from, rel_to):
-        self._op("rename", rel_from, rel_to)
-        return self._decorated.rename(rel_from, rel_to)
+        op = self._op("rename", rel_from, rel_to)
+        return self._do(op, self._decorated.rename, rel_from, rel_to)
 
     def move(self, rel_from, rel_to):
-        self._op("move", rel_from, rel_to)
-        return self._decorated.move(rel_from, rel_to)
+        op = self._op("move", rel_from, rel_to)
+        return self._do(op, self._decorated.move, rel_from, rel_to)
 
     def copy(self, rel_from, rel_to):
-        self._op("copy", rel_from, rel_to)
-        return self._decorated.copy(rel_from, rel_to)
+        op = self._op("copy", rel_from, rel_to)
+        return self._do(op, self._decorated.copy, rel_from, rel_to)
 
     def delete(self, relpath):
-        self._op("delete", relpath)
-        return self._decorated.delete(relpath)
+        op = self._op("delete", relpath)
+        return self._do(op, self._decorated.delete, relpath)
 
     def rmdir(self, relpath):
-        self._op("rmdir", relpath)
-        return self._decorated.rmdir(relpath)
+        op = self._op("rmdir", relpath)
+        return self._do(op, self._decorated.rmdir, relpath)
 
     def delete_tree(self, relpath):
-        self._op("delete_tree", relpath)
-        return self._decorated.delete_tree(relpath)
+        op = self._op("delete_tree", relpath)
+        return self._do(op, self._decorated.delete_tree, relpath)
 
     def external_url(self):
         raise terrors.InProcessTransport(self)
